@@ -202,6 +202,7 @@ func (s *Service) Write(ctx context.Context, tags string, lit model.Iterator, no
 	}
 
 	if weInit && !noEvent {
+		verifHook("write-event", src)
 		s.onWriteEvent(we)
 	}
 
